@@ -2,6 +2,8 @@
 package conf
 
 import (
+	"bytes"
+	"encoding/json"
 	"errors"
 	"fmt"
 	"net"
@@ -160,6 +162,13 @@ func anyPathHasDeprecatedCredentials(pathDefaults Path, paths map[string]*Option
 		}
 	}
 	return false
+}
+
+// nil and empty lists are the same here (one side may have gone through the API).
+func sameAuthInternalUsers(a []AuthInternalUser, b []AuthInternalUser) bool {
+	ja, _ := json.Marshal(a)
+	jb, _ := json.Marshal(b)
+	return bytes.Equal(ja, jb)
 }
 
 func deepClone(rv reflect.Value) reflect.Value {
@@ -440,6 +449,9 @@ type Conf struct {
 	// Paths
 	OptionalPaths map[string]*OptionalPath `json:"paths"`
 	Paths         map[string]*Path         `json:"-"` // filled by Validate()
+
+	// users generated from deprecated path credentials, filled by Validate()
+	LegacyAuthInternalUsers []AuthInternalUser `json:"-"`
 }
 
 func (conf *Conf) setDefaults() {
@@ -681,7 +693,9 @@ func (conf *Conf) Validate(l logger.Writer) error {
 			"(publishUser, publishPass, publishIPs, readUser, readPass, readIPs). "+
 			"These have been replaced by 'authInternalUsers'")
 
-		if conf.AuthInternalUsers != nil && !reflect.DeepEqual(conf.AuthInternalUsers, defaultAuthInternalUsers) {
+		// Validate() runs again on every API edit, on a configuration that already contains the generated users
+		if conf.AuthInternalUsers != nil && !reflect.DeepEqual(conf.AuthInternalUsers, defaultAuthInternalUsers) &&
+			!sameAuthInternalUsers(conf.AuthInternalUsers, conf.LegacyAuthInternalUsers) {
 			return fmt.Errorf("authInternalUsers and legacy credentials " +
 				"(publishUser, publishPass, publishIPs, readUser, readPass, readIPs) cannot be used together")
 		}
@@ -1160,6 +1174,11 @@ func (conf *Conf) Validate(l logger.Writer) error {
 		if err != nil {
 			return err
 		}
+	}
+
+	conf.LegacyAuthInternalUsers = nil
+	if deprecatedCredentialsMode {
+		conf.LegacyAuthInternalUsers = conf.AuthInternalUsers
 	}
 
 	return nil
